@@ -97,6 +97,22 @@ def check_strength(case):
     if not np.all(np.isfinite(ps)) or np.any(ps < 0):
         i = int(np.argmax(~np.isfinite(ps) | (ps < 0)))
         out.fail("precipitate_strength_invalid", "multi-phase precipitate strength %r at row %d (r=%r/%r, ri=%r)" % (ps[i], i, r[i], r[::-1][i], p["ri"]), subcore=bool(min(r[i], r[::-1][i]) * 2 < p["ri"]))
+    # the recorded history evaluated again after a parameter was changed (no host step in between, as when exploring parameters after a
+    # run): single-phase history, so the precipitate strength is M * min(branches) of that phase with the parameters in force at the call
+    if case.get("M2"):
+        sm.rss = r.reshape(-1, 1).copy()
+        sm.ls = Ls.reshape(-1, 1).copy()
+        one = _FakeModel(["P0"])
+        ps_a = np.asarray(sm.precStrength(one), dtype=float)
+        sm.setTaylorFactor(case["M2"])
+        ps_b = np.asarray(sm.precStrength(one), dtype=float)
+        w, s_, oro, _n = sm.getStrengthContributions(r, Ls, "P0")
+        ref_b = np.asarray(sm.combineStrengthContributions(np.array(w, dtype=float, copy=True), np.array(s_, dtype=float, copy=True), np.array(oro, dtype=float, copy=True)), dtype=float)
+        ok = np.isfinite(ps_a) & np.isfinite(ref_b)
+        if ps_b.shape != ps_a.shape or not np.allclose(ps_b[ok], ps_a[ok] * (case["M2"] / p["M"]), rtol=1e-9, atol=0) or not np.allclose(ps_b[ok], ref_b[ok], rtol=1e-9, atol=0):
+            out.fail("not_min_of_branches", "recorded history re-evaluated after setTaylorFactor(%r) (was %r): precipitate strength %r, before the change %r, M*min(branches) now %r" % (case["M2"], p["M"], ps_b[:3].tolist(), ps_a[:3].tolist(), ref_b[:3].tolist()), what="after_parameter_change")
+        sm.setTaylorFactor(p["M"])
+        out.label("history_reevaluated_after_parameter_change")
     ss = np.array(case["ss"], dtype=float)[:len(ps)]
     ss = np.resize(ss, len(ps))
     sm.setBaseStrength(case["sigma0"])
@@ -359,7 +375,8 @@ def _strength_case(draw):
     rr = st.one_of(st.just(0.0), st.floats(0.05, 0.6).map(lambda f: f * p["ri"]), st.floats(-10, -6.5).map(lambda e: 10 ** e))
     r = [draw(rr) for _ in range(n)]
     Ls = [0.0 if (x == 0 or draw(st.integers(0, 11)) == 11) else 10 ** draw(st.floats(-9, -5.5)) for x in r]      # zero spacing also next to a non-zero radius ("all non-negative radii and spacings")
-    return {"par": p, "r": r, "Ls": Ls, "ss": [10 ** draw(st.floats(5, 9)) * draw(st.sampled_from([0.0, 1.0, 1.0])) for _ in range(n)], "sigma0": draw(st.sampled_from([0.0, 1e7, 1e8]))}
+    return {"par": p, "r": r, "Ls": Ls, "ss": [10 ** draw(st.floats(5, 9)) * draw(st.sampled_from([0.0, 1.0, 1.0])) for _ in range(n)], "sigma0": draw(st.sampled_from([0.0, 1e7, 1e8])),
+            "M2": draw(st.one_of(st.just(0.0), st.floats(1, 3.1)))}
 
 
 @st.composite
@@ -396,7 +413,7 @@ def clauses():
     return [
         Clause("strength", _strength_case, check_strength, quick=5000, thorough=300000,
                rule="generator: dislocation parameters (G, b, nu, r_i in {0.5,1,2,5} b, theta 0-90, psi), Taylor factor, superposition exponents in [1,2], any subset of the five cutting contributions (global or phase specific), radii arrays mixing 0, sub-core radii (2r < r_i) and 1e-10..3e-7 m with spacings; "
-                    "oracle: every branch finite and >= 0, combined = M*min(weak, strong, Orowan) recomputed, zero without precipitates, total >= parts and monotone; non-trivial: an array holding both a sub-core and a normal radius"),
+                    "oracle: every branch finite and >= 0, combined = M*min(weak, strong, Orowan) recomputed, zero without precipitates, total >= parts and monotone; a single-phase history evaluated again after setTaylorFactor (no host step in between) scales with the factor and equals M*min(branches) with the parameters in force; non-trivial: an array holding both a sub-core and a normal radius"),
         Clause("mixed_limits", _strength_case, check_mixed, quick=2500, thorough=100000,
                rule="same parameter generator; the mixed-dislocation formulas at 90 and 0 degrees against the edge and screw formulas (rtol 5e-3, simple J)"),
         Clause("graingrowth", _grain_case, check_grain, quick=250, thorough=8000, shrink=False,
